@@ -188,6 +188,7 @@ Definition roll_indent (col : N) (number : option N) (tk : tok) (mk : marker) : 
       end
     else (sc_indent s, sc_indents s) in
   if (ind <? Z.of_N col)%Z then
+    if BLOCK_NESTING_MAX <=? N.of_nat (length inds) then fail 46 (sc_mark s) else
     put (set_indent (Z.of_N col) ({| in_indent := ind; in_needs_block_end := true |} :: inds) s) ;;;
     match number with
     | Some n =>
